@@ -107,6 +107,9 @@ def timeout_with_mapper_(
             def on_next(x: _T) -> None:
                 if observer_wins():
                     observer.on_next(x)
+                    if timer.is_disposed:
+                        return
+
                     timeout = None
                     try:
                         timeout = (
